@@ -11,15 +11,18 @@ from ..report import Ctx
 from .common import RANDOM_SOURCE
 
 LEVEL_TEXT = (
-    "Static rules over the whole package: (R1) every iteration of a set-typed expression (mypy types; sets of classes "
-    "iterate in address order, which differs between processes) is classified by its consumer: reductions, set "
-    "building, membership and commutative loop bodies are order-insensitive; anything that fixes positions (list(), "
-    "list comprehension, append, yield, a random draw per element) is order-sensitive and a finding unless it is one "
-    "of the sites confirmed insensitive by reading (frozen table, one reason each); (R2) the seeded source draws only "
-    "from a private random.Random(seed); (R3) no call of a process-global RNG, clock, uuid/urandom, and no id()/hash() "
-    "in a value position outside the allow-listed timing/logging sites; (R4) no function writes module-level or "
-    "class-level state (caches, counters) and no parameter default is a shared stateful object, so nothing carries "
-    "over from one search to the next in a process. Equality of two whole runs is an execution and is not decided."
+    "Static rules over the whole package: (R1) every iteration of a set-typed expression (mypy types; sets of "
+    "classes iterate in address order, which differs between processes) is classified by its consumer: "
+    "reductions, set building, membership and commutative loop bodies are order-insensitive; anything that fixes "
+    "positions (list(), list comprehension, append, yield, a random draw per element) is order-sensitive and a "
+    "finding unless it is one of the sites confirmed insensitive by reading (frozen table, one reason each); the "
+    "accepted fixpoint over the symbol set in preprocess is insensitive only if complete: every 'something "
+    "changed' report inside a 'while <flag>' loop over that set (a smaller value stored, a helper returning "
+    "whether it changed anything) must feed the loop flag; (R2) the seeded source draws only from a private "
+    "random.Random(seed); (R3) no call of a process-global RNG, clock, uuid/urandom, and no id()/hash() in a "
+    "value position outside the allow-listed timing/logging sites; (R4) no function writes module-level or class-"
+    "level state (caches, counters) and no parameter default is a shared stateful object, so nothing carries over"
+    " from one search to the next in a process. Equality of two whole runs is an execution and is not decided."
 )
 
 # iteration sites over sets confirmed order-insensitive by reading: (function qualname, iterable text) -> reason
